@@ -108,6 +108,53 @@ end
 
 /-! ### type maps -/
 
+mutual
+theorem beq_symm : ∀ a b, beq a b = true → beq b a = true
+  | builtin .., b, h => by
+      cases b <;> simp [beq] at h
+      simp [beq, h]
+  | simple nm sp, b, h => by
+      cases b <;> simp [beq] at h
+      simp [beq, h, beqL_symm sp _ h.2]
+  | tparam nm v bd, b, h => by
+      cases b <;> simp [beq] at h
+      simp [beq, h, beqO_symm bd _ h.2]
+  | wild v bd, b, h => by
+      cases b <;> simp [beq] at h
+      simp [beq, h, beqO_symm bd _ h.2]
+  | tcon .., b, h => by
+      cases b <;> simp [beq] at h
+      simp [beq, h]
+  | param nm con args ss, b, h => by
+      cases b <;> try (simp [beq] at h; done)
+      rename_i nm' con' args' ss'
+      cases con <;> cases con' <;> try (simp [beq] at h; done)
+      rename_i cls cnm ps css cls' cnm' ps' css'
+      simp [beq] at h
+      obtain ⟨⟨⟨e1, s1⟩, c1⟩, a1⟩ := h
+      simp [beq, e1, beqL_symm ss _ s1, beqL_symm args _ a1, c1.1, beqL_symm ps _ c1.2]
+  | nothing, b, h => by
+      cases b <;> simp [beq] at h
+      simp [beq]
+  | ext _, b, h => by
+      cases b <;> simp [beq] at h
+      simp [beq, h]
+theorem beqL_symm : ∀ a b, beqL a b = true → beqL b a = true
+  | [], b, h => by
+      cases b <;> simp [beqL] at h
+      simp [beqL]
+  | x :: xs, b, h => by
+      cases b <;> simp [beqL] at h
+      simp [beqL, beq_symm x _ h.1, beqL_symm xs _ h.2]
+theorem beqO_symm : ∀ a b, beqO a b = true → beqO b a = true
+  | none, b, h => by
+      cases b <;> simp [beqO] at h
+      simp [beqO]
+  | some x, b, h => by
+      cases b <;> simp [beqO] at h
+      simp [beqO, beq_symm x _ h]
+end
+
 theorem TMap.get_mem {m : TMap} {k r : Ty} (h : m.get k = some r) : ∃ p ∈ m, p.2 = r := by
   unfold TMap.get at h
   cases hf : m.find? (fun p => beq p.1 k) with
